@@ -14,7 +14,8 @@ SPEC = dict(
                 "The model is re-validated on every run against the real pruner.Service (Start/prune/pruneOnHeaderDelete/"
                 "ResetCheckpoint/Stop, real checkpoint persistence) on ~2400 generated histories. Partial: the on-delete hook prunes "
                 "whatever the header store deletes (its safety is the store's obligation); the global completeness theorem covers "
-                "histories without header deletion (the per-cycle theorem covers any state); the archival/pruned store effect of "
+                "histories without header deletion, the per-cycle theorem covers any state, including a header-store tail that overtook the "
+                "checkpoint (with fix-c14-2 the block at the new tail is pruned too; before it that block was skipped for good); the archival/pruned store effect of "
                 "Pruner.Prune itself (RemoveQ4 vs RemoveODSQ4) is not part of this model (store properties C05/C07)."),
     rule=("one case = one history on the real Service: header chain of 1..50 heights (tail 1, small or large) with regular, faster, slower or "
           "irregular block times (equal timestamps, gaps; 10% non-monotone), window placed so the cutoff falls inside the chain (+-1, +-block "
@@ -25,7 +26,7 @@ SPEC = dict(
           "block compared as a set, batches in order), in-memory and persisted checkpoint (height, failed set). Non-trivial = at least one "
           "Prune call and (a failure or a restart/crash); distinct = distinct Coq case term."),
     trusted_base=[
-        "model Pruner/Find.v, Pruner/Cycle.v hand-written after pruner/find.go, pruner/service.go, pruner/checkpoint.go (with fix-c14-1); tied by "
+        "model Pruner/Find.v, Pruner/Cycle.v hand-written after pruner/find.go, pruner/service.go, pruner/checkpoint.go (with fix-c14-1 and fix-c14-2); tied by "
         "harness/pruner/zz_verif_c14_test.go, which drives the real pruner.Service and whose observations are re-computed by the model inside Coq "
         "(vm_compute) on every run",
         "the harness mocks: header store (consecutive heights, Head/Tail/GetByHeight/GetRangeByHeight with go-header semantics, OnDelete keeps "
